@@ -1,4 +1,5 @@
 import OjgVerif.JPMut.LemmasFrame
+import OjgVerif.JPMut.LemmasOne
 import OjgVerif.JPMut.LemmasAll
 /-! # C13 — Path mutations touch exactly the selected locations
 
@@ -22,6 +23,10 @@ selected locations are those of the shared path denotation `JPath.eval` (what Ge
   selects other indexes than the specification on an array it meets (for `Dev.fixed` no slice is excluded),
   the reflect branch of a filter on a map (`filterMapNil`), `$` on a root that is not a container
   (`rootScalar`), a from-the-end index in the union of a Remove (`removeUnionNeg`).
+* `one_set`, `one_modify`, `one_remove` — the One forms, for every path (descent and filters included), every
+  deviation set, simple and gen data, whatever is reported: the data afterwards is the data before, or differs
+  from it by ONE member of ONE container written, added or deleted (`OneChange`); for RemoveOne: one container
+  has lost one member. (That the member is a selected location is checked by the oracle of the harness.)
 * `reported_*` — error-not-fault for every path (descent and filters included): with `genUnionOOB` off
   no entry point ends in a run-time fault; Modify/Remove never do.
 * `gen_*` — with `genUnionOOB` / `genModifyNil` off the mutators do on gen data what they do on simple
@@ -383,6 +388,26 @@ theorem C13_partial (dev : Dev) (op : Op) (x : List Frag) (d d' : JV) (hnd : NoD
     simp only [runModel, remove_eq dev sx f d hnd hw h1 h2] at h
     injection h with h
     exact h.symm
+
+/-! ## the One forms change at most one location -/
+
+/-- SetOne / DelOne: the data afterwards is the data before or differs from it by one member of one container
+written, added or deleted -/
+theorem one_set (gen : Bool) (dev : Dev) (a : SetArg) (x : List Frag) (d : JV) :
+    AtMostOne QAny d ((setM gen dev true a x d).data d) := setOne_atMost gen dev a x d
+
+/-- ModifyOne: the root as it was, the modifier's result on the root (path `$`), or the root with one member of one
+container replaced by the modifier's result on it -/
+theorem one_modify (gen : Bool) (dev : Dev) (m : Modifier) (x : List Frag) (d : JV) :
+    RootOne (fun c v => v = (m c).1) d ((modifyM gen dev true m x d).data d) := modifyOne_atMost gen dev m x d
+
+/-- RemoveOne: the root as it was, or one container (the root or one member of one container) has lost one member -/
+theorem one_remove (gen : Bool) (dev : Dev) (x : List Frag) (d : JV) :
+    RootOne Drop d ((removeM gen dev true x d).data d) := removeOne_atMost gen dev x d
+
+/-- the all-matches form changes two locations where the One form changes one -/
+example : setM false Dev.current true (.val (.int 9)) [.wild] (ints [1, 2]) = .ok (ints [9, 2]) ∧
+    setM false Dev.current false (.val (.int 9)) [.wild] (ints [1, 2]) = .ok (ints [9, 9]) := ⟨by rfl, by rfl⟩
 
 /-! ## error, not fault -/
 
